@@ -194,6 +194,15 @@ struct Attribution<'a> {
     outside: State,
     /// inputs of the compaction in the order it read them
     removed: Vec<Vec<ReplicationDelta>>,
+    /// The tombstone findings (KF-C13-02/-03) are properties of the UNCHANGED selection rule:
+    /// what lies outside a compaction is a segment at or above the size target, a segment
+    /// beyond max_segments_per_compaction in id order, or the checkpoint. They are only
+    /// matched when the compacted set is exactly what that rule (oldest first by id among the
+    /// below-target segments, as documented) selects from the manifest the compactor loaded —
+    /// minus a segment it could not read under an injected read fault.
+    selection_is_reference: bool,
+    /// for the message
+    selection_note: String,
 }
 
 struct Stats {
@@ -284,8 +293,10 @@ impl<'a> Attribution<'a> {
             let id: Option<&'static str> = if peer_opt(a) == peer_opt(p1.get(key)) {
                 match self.l.clock {
                     // a tombstone younger than the TTL was dropped
-                    Clock::Production(_) => Some("KF-C13-02"),
-                    Clock::Simulated(_) if resurrect => Some("KF-C13-03"),
+                    Clock::Production(_) if self.selection_is_reference => Some("KF-C13-02"),
+                    Clock::Production(_) => None,
+                    Clock::Simulated(_) if resurrect && self.selection_is_reference => Some("KF-C13-03"),
+                    Clock::Simulated(_) if resurrect => None,
                     Clock::Simulated(_) => {
                         // a tombstone older than the TTL (by the stamp-as-ms convention) is gone
                         // and no client-visible value came back: legitimate garbage collection
@@ -311,9 +322,10 @@ impl<'a> Attribution<'a> {
                 }
                 None => {
                     return Err(format!(
-                        "key {}: recovered state changed across compaction{}\n      before : client {}  peer {}\n      after  : client {}  peer {}\n      (per-key merge + tombstone rule would give {}; keep-latest + tombstone rule would give {})\n      compactor clock {:?} => now {} ms, ttl {} ms, cutoff {}; {} input segments",
+                        "key {}: recovered state changed across compaction{}{}\n      before : client {}  peer {}\n      after  : client {}  peer {}\n      (per-key merge + tombstone rule would give {}; keep-latest + tombstone rule would give {})\n      compactor clock {:?} => now {} ms, ttl {} ms, cutoff {}; {} input segments",
                         key,
                         match id { Some(id) => format!(" [matches {}]", id), None => String::new() },
+                        if self.selection_is_reference { String::new() } else { format!(" — {}", self.selection_note) },
                         short(&client(i)),
                         short(&peer_opt(i)),
                         short(&client(a)),
@@ -371,52 +383,141 @@ fn describe_layout(env: &Env, before: &Recovered) -> String {
 // tier 1: one compaction on a quiescent store
 // ---------------------------------------------------------------------------------------
 
-fn check_layout(l: &Layout, ctx: &mut CaseCtx<'_>) -> Result<(), String> {
-    let env = setup(l)?;
-    let before = recover_image(&env.image).map_err(|e| format!("before compaction: {}", e))?;
-    let store = TraceObjectStore::from_image(env.image.clone());
+/// What the documented selection rule picks from `m`: below-target segments, oldest (lowest
+/// id) first, at most max_segments_per_compaction.
+fn reference_selection(m: &redis_sim::streaming::Manifest, l: &Layout) -> Vec<u64> {
+    let mut ids: Vec<u64> = m
+        .segments
+        .iter()
+        .filter(|s| s.size_bytes < l.target as u64)
+        .map(|s| s.id)
+        .collect();
+    ids.sort();
+    ids.truncate(l.max_seg.max(1) as usize);
+    ids
+}
+
+fn same_state(a: &State, b: &State) -> Option<String> {
+    let keys: BTreeSet<&String> = a.keys().chain(b.keys()).collect();
+    keys.into_iter()
+        .find(|k| peer_opt(a.get(*k)) != peer_opt(b.get(*k)))
+        .cloned()
+}
+
+/// One `compact()` on `image` (optionally with one injected read fault), compared with the
+/// state recovered before. Returns the image after the pass if something was compacted.
+fn compaction_pass(
+    l: &Layout,
+    image: &Image,
+    seg_deltas: &mut BTreeMap<u64, Vec<ReplicationDelta>>,
+    fault: Option<(usize, Fault)>,
+    first: bool,
+    ctx: &mut CaseCtx<'_>,
+) -> Result<Option<Image>, String> {
+    let env_view = Env {
+        image: image.clone(),
+        seg_deltas: seg_deltas.clone(),
+    };
+    let before = recover_image(image).map_err(|e| format!("before compaction: {}", e))?;
+    let store = TraceObjectStore::from_image(image.clone());
+    if let Some(f) = fault {
+        store.set_faults(&[f]);
+    }
     let arc = Arc::new(store.clone());
     let mut c = compactor(&arc, l);
     let res = run_now(c.compact());
+    store.set_faults(&[]);
+    let fault_text = match fault {
+        Some((i, f)) => format!(
+            "\n    injected read fault {:?} on call {}",
+            f,
+            store.calls().get(i).map(|c| c.short()).unwrap_or_default()
+        ),
+        None => String::new(),
+    };
     let after = recover_image(&store.image()).map_err(|e| {
         format!(
-            "after compaction ({:?}): {}\n{}",
+            "after compaction ({:?}): {}{}\n{}",
             res.as_ref().map(|r| r.segments_removed.iter().map(|s| s.id).collect::<Vec<_>>()),
             e,
-            describe_layout(&env, &before)
+            fault_text,
+            describe_layout(&env_view, &before)
         )
     })?;
-    if matches!(l.clock, Clock::Production(_)) {
-        ctx.label("production_clock");
-    }
-    if before.checkpoint.is_some() {
-        ctx.label("checkpoint");
+    if first {
+        if matches!(l.clock, Clock::Production(_)) {
+            ctx.label("production_clock");
+        }
+        if before.checkpoint.is_some() {
+            ctx.label("checkpoint");
+        }
     }
     let res = match res {
         Ok(r) => r,
-        Err(CompactionError::NothingToCompact) => {
-            ctx.label("nothing_to_compact");
-            for key in before.state.keys().chain(after.state.keys()) {
-                if peer_opt(before.state.get(key)) != peer_opt(after.state.get(key)) {
-                    return Err(format!("compact() said NothingToCompact but key {} changed", key));
-                }
+        Err(e) => {
+            let nothing = matches!(e, CompactionError::NothingToCompact);
+            if !nothing && fault.is_none() {
+                return Err(format!("compact() failed on a fault-free store: {}\n{}", e, describe_layout(&env_view, &before)));
             }
-            return Ok(());
+            if first && fault.is_none() {
+                ctx.label("nothing_to_compact");
+            }
+            if let Some(key) = same_state(&before.state, &after.state) {
+                return Err(format!(
+                    "compact() returned Err({}) but key {} changed: before {} after {}{}\n{}",
+                    e,
+                    key,
+                    short(&peer_opt(before.state.get(&key))),
+                    short(&peer_opt(after.state.get(&key))),
+                    fault_text,
+                    describe_layout(&env_view, &before)
+                ));
+            }
+            return Ok(None);
         }
-        Err(e) => return Err(format!("compact() failed on a fault-free store: {}\n{}", e, describe_layout(&env, &before))),
     };
-    ctx.label("compacted");
+    if first && fault.is_none() {
+        ctx.label("compacted");
+    }
     let removed_ids: Vec<u64> = res.segments_removed.iter().map(|s| s.id).collect();
-    if before.manifest.segments.len() > removed_ids.len() {
-        ctx.label("some_segments_outside");
+    let n_candidates = before
+        .manifest
+        .segments
+        .iter()
+        .filter(|s| s.size_bytes < l.target as u64)
+        .count();
+    if fault.is_none() {
+        if before.manifest.segments.len() > removed_ids.len() {
+            ctx.label("some_segments_outside");
+        }
+        if n_candidates > removed_ids.len() {
+            ctx.label("more_candidates_than_max");
+        }
+        if res.tombstones_removed > 0 {
+            ctx.label("tombstones_dropped");
+        }
     }
-    if res.tombstones_removed > 0 {
-        ctx.label("tombstones_dropped");
-    }
+    // reference selection (minus a segment that could not be read under the injected fault)
+    let faulted_segment: Option<u64> = fault.and_then(|(i, _)| {
+        let calls = store.calls();
+        let key = calls.get(i)?.key.clone();
+        before.manifest.segments.iter().find(|s| s.key == key).map(|s| s.id)
+    });
+    let reference = reference_selection(&before.manifest, l);
+    let reference_without_faulted: Vec<u64> = reference
+        .iter()
+        .cloned()
+        .filter(|id| Some(*id) != faulted_segment)
+        .collect();
+    let mut removed_sorted = removed_ids.clone();
+    removed_sorted.sort();
+    // (a flipped byte may hit a header field nothing depends on: then the segment is read
+    // normally and the full reference set is compacted)
+    let selection_is_reference = removed_sorted == reference || removed_sorted == reference_without_faulted;
     let mut removed = Vec::new();
     for id in &removed_ids {
         removed.push(
-            env.seg_deltas
+            seg_deltas
                 .get(id)
                 .cloned()
                 .ok_or_else(|| format!("compaction removed unknown segment {}", id))?,
@@ -427,15 +528,20 @@ fn check_layout(l: &Layout, ctx: &mut CaseCtx<'_>) -> Result<(), String> {
         .segments
         .iter()
         .filter(|s| !removed_ids.contains(&s.id))
-        .flat_map(|s| env.seg_deltas.get(&s.id).cloned().unwrap_or_default())
+        .flat_map(|s| seg_deltas.get(&s.id).cloned().unwrap_or_default())
         .collect();
     let att = Attribution {
         l,
         ideal: before.state.clone(),
         outside: fold(before.checkpoint.as_ref(), &outside_deltas),
         removed,
+        selection_is_reference,
+        selection_note: format!(
+            "the compacted set {:?} is not the oldest-first selection {:?} of the documented rule, so the tombstone findings do not apply",
+            removed_sorted, reference
+        ),
     };
-    if att.nontrivial() {
+    if first && fault.is_none() && att.nontrivial() {
         ctx.nontrivial(l);
     }
     let mut stats = Stats {
@@ -444,23 +550,142 @@ fn check_layout(l: &Layout, ctx: &mut CaseCtx<'_>) -> Result<(), String> {
     };
     att.compare(&after.state, None, ctx, &mut stats).map_err(|e| {
         format!(
-            "{}\n    compaction removed segments {:?}, created {:?}, dropped {} tombstones\n    layout:\n{}",
+            "{}\n    compaction removed segments {:?}, created {:?}, dropped {} tombstones{}\n    layout:\n{}",
             e,
             removed_ids,
             res.segment_created.as_ref().map(|s| s.id),
             res.tombstones_removed,
-            describe_layout(&env, &before)
+            fault_text,
+            describe_layout(&env_view, &before)
         )
     })?;
-    if stats.gc_accepted > 0 {
-        ctx.label("tombstone_gc_accepted");
+    if fault.is_none() {
+        if stats.gc_accepted > 0 {
+            ctx.label("tombstone_gc_accepted");
+        }
+        for id in &stats.tolerated {
+            ctx.label(&format!("differs:{}", id));
+        }
+        if first && stats.tolerated.is_empty() {
+            ctx.label("compacted_and_equal");
+        }
     }
-    for id in &stats.tolerated {
-        ctx.label(&format!("differs:{}", id));
+    // the new segment becomes a known input for the next pass
+    let img = store.image();
+    if let Some(info) = &res.segment_created {
+        let data = img
+            .get(&info.key)
+            .ok_or_else(|| format!("compaction reported new segment {} which is not in the store", info.key))?;
+        let ds = redis_sim::streaming::SegmentReader::open(data)
+            .and_then(|r| r.read_all())
+            .map_err(|e| format!("new segment {} unreadable: {}", info.key, e))?;
+        seg_deltas.insert(info.id, ds);
     }
-    if stats.tolerated.is_empty() {
-        ctx.label("compacted_and_equal");
+    Ok(Some(img))
+}
+
+/// Tier 1: compaction passes on a quiescent store until nothing is selectable (at most 6),
+/// recovery compared across every pass.
+fn check_layout(l: &Layout, ctx: &mut CaseCtx<'_>) -> Result<(), String> {
+    let env = setup(l)?;
+    let mut seg_deltas = env.seg_deltas.clone();
+    let mut image = env.image.clone();
+    let mut passes = 0u64;
+    for pass in 0..6 {
+        match compaction_pass(l, &image, &mut seg_deltas, None, pass == 0, ctx)
+            .map_err(|e| format!("compaction pass {}: {}", pass + 1, e))?
+        {
+            Some(img) => {
+                image = img;
+                passes += 1;
+            }
+            None => break,
+        }
     }
+    if passes >= 2 {
+        ctx.label("passes>=2");
+    }
+    if passes >= 3 {
+        ctx.label("passes>=3");
+    }
+    ctx.add_evaluations(passes.saturating_sub(1));
+    Ok(())
+}
+
+// ---------------------------------------------------------------------------------------
+// tier 1b: read-side faults (a get that returns corrupted or truncated bytes once)
+// ---------------------------------------------------------------------------------------
+
+fn read_fault_kinds() -> Vec<Fault> {
+    vec![
+        Fault::Fail,
+        Fault::CorruptGet(0),   // first header byte
+        Fault::CorruptGet(60),  // header / start of the body
+        Fault::CorruptGet(300), // body
+        Fault::CorruptGet(600), // body
+        Fault::CorruptGet(930), // footer region of small segments
+        Fault::CorruptGet(999), // last byte
+        Fault::TruncateGet(0),
+        Fault::TruncateGet(200),
+        Fault::TruncateGet(500),
+        Fault::TruncateGet(900),
+        Fault::TruncateGet(999),
+    ]
+}
+
+fn check_read_faults(l: &Layout, ctx: &mut CaseCtx<'_>) -> Result<(), String> {
+    let env = setup(l)?;
+    let before = recover_image(&env.image).map_err(|e| format!("before: {}", e))?;
+    let mut evals = 0u64;
+    // (a) recovery itself under a read fault: an error, or the healthy state
+    {
+        let st = TraceObjectStore::from_image(env.image.clone());
+        let _ = run_now(redis_sim::streaming::RecoveryManager::new(st.clone(), PREFIX, REPLICA).recover());
+        let gets: Vec<usize> = st.calls().iter().filter(|c| c.op == OpKind::Get).map(|c| c.idx).collect();
+        for i in gets {
+            for f in read_fault_kinds() {
+                let st = TraceObjectStore::from_image(env.image.clone());
+                st.set_faults(&[(i, f)]);
+                let rm = redis_sim::streaming::RecoveryManager::new(st.clone(), PREFIX, REPLICA);
+                let r = vcore::runner::catch(|| run_now(rm.recover()))
+                    .map_err(|p| format!("recover() under {:?} on call {}: {}", f, i, p))?;
+                evals += 1;
+                if let Ok(rec) = r {
+                    let state = fold(rec.checkpoint_state.as_ref(), &rec.deltas);
+                    if let Some(key) = same_state(&before.state, &state) {
+                        return Err(format!(
+                            "recover() returned Ok with a different state under read fault {:?} on call {}: key {} healthy {} faulty {}\n{}",
+                            f,
+                            st.calls().get(i).map(|c| c.short()).unwrap_or_default(),
+                            key,
+                            short(&peer_opt(before.state.get(&key))),
+                            short(&peer_opt(state.get(&key))),
+                            describe_layout(&env, &before)
+                        ));
+                    }
+                }
+            }
+        }
+    }
+    // (b) compaction under a read fault on each of its gets; recovery afterwards is healthy
+    let probe = TraceObjectStore::from_image(env.image.clone());
+    {
+        let arc = Arc::new(probe.clone());
+        let mut c = compactor(&arc, l);
+        let _ = run_now(c.compact());
+    }
+    let gets: Vec<usize> = probe.calls().iter().filter(|c| c.op == OpKind::Get).map(|c| c.idx).collect();
+    if gets.len() >= 3 {
+        ctx.nontrivial(l);
+    }
+    for i in gets {
+        for f in read_fault_kinds() {
+            let mut seg_deltas = env.seg_deltas.clone();
+            compaction_pass(l, &env.image, &mut seg_deltas, Some((i, f)), false, ctx)?;
+            evals += 1;
+        }
+    }
+    ctx.add_evaluations(evals);
     Ok(())
 }
 
@@ -666,11 +891,24 @@ fn check_one_schedule(
         .iter()
         .flat_map(|id| seg_deltas.get(id).cloned().unwrap_or_default())
         .collect();
+    // reference selection on the manifest the compactor actually loaded (its first call)
+    let loaded = calls
+        .iter()
+        .find(|c| c.task == TASK_COMPACT)
+        .and_then(|c| read_manifest(&out.store.image_before(c.idx)));
+    let reference = loaded.as_ref().map(|m| reference_selection(m, l)).unwrap_or_default();
+    let mut removed_sorted = removed_ids.clone();
+    removed_sorted.sort();
     let att = Attribution {
         l,
         ideal,
         outside: fold(before.checkpoint.as_ref(), &outside_deltas),
         removed,
+        selection_is_reference: removed_sorted == reference,
+        selection_note: format!(
+            "the compacted set {:?} is not the oldest-first selection {:?} of the documented rule, so the tombstone findings do not apply",
+            removed_sorted, reference
+        ),
     };
     let mut stats = Stats {
         gc_accepted: 0,
@@ -814,6 +1052,47 @@ fn layout(min_segments: usize, max_segments: usize, max_deltas: usize) -> impl S
         })
 }
 
+/// More below-target candidates than max_segments_per_compaction, of clearly different sizes
+/// (size order differs from id order), few keys, many deletes: value / tombstone pairs split
+/// across the selection boundary; several passes are needed to compact everything.
+fn layout_many() -> impl Strategy<Value = Layout> {
+    let spec = (
+        0u8..2,
+        prop_oneof![
+            3 => Just(Action::Del),
+            2 => (0u8..6).prop_map(|val| Action::Set { val, pad: 0 }),
+            2 => (0u8..6, prop_oneof![Just(80u16), Just(200), Just(350)]).prop_map(|(val, pad)| Action::Set { val, pad }),
+            1 => (0u8..4, 0u8..6).prop_map(|(field, val)| Action::HSet { field, val }),
+        ],
+        1u8..4,
+        1u64..60,
+    )
+        .prop_map(|(key, action, replica, time)| DeltaSpec {
+            key,
+            action,
+            replica,
+            time,
+        });
+    (
+        proptest::collection::vec(proptest::collection::vec(spec, 1..4), 4..=8),
+        prop_oneof![4 => Just(0u8), 1 => 1u8..3],
+        prop_oneof![1 => Just(1u8), 3 => Just(2u8)],
+        2u8..4,
+        ttl(),
+        prop_oneof![Just(2000u32), Just(1 << 20)],
+        clock(),
+    )
+        .prop_map(|(segments, checkpoint_prefix, min_seg, max_seg, ttl_ms, target, clock)| Layout {
+            segments,
+            checkpoint_prefix,
+            min_seg,
+            max_seg,
+            ttl_ms,
+            target,
+            clock,
+        })
+}
+
 // ---------------------------------------------------------------------------------------
 // probes (minimal reproducers)
 // ---------------------------------------------------------------------------------------
@@ -888,6 +1167,8 @@ fn main() {
         "layouts: 2-8 segments of 1-5 updates written through StreamingPersistence (4 string + 2 hash keys, 3 replicas, Lamport times 1..60 with collisions, padded values so that segment sizes straddle target_segment_size in {250,400,700,1MiB}), optional checkpoint over a prefix, \
          CompactionConfig min 2-3 / max 2-6 segments, ttl in {1,10,50,100 ms,1 h,24 h}, compactor clock production-like (epoch ms) or simulated (0..300 ms). \
          interleave: 2-3 segment layouts + a 1-3 update batch, ALL interleavings of compact()'s and flush()'s store calls (hand-polled, one call per step); interleave_sampled: up to 6 segments with a generated 40-step schedule word. \
+         layouts also: 4-8 below-target segments of clearly different sizes on two keys with many deletes and max 2-3 segments per compaction (more candidates than max; size order != id order); compaction passes are repeated until nothing is selectable (<= 6) and recovery compared across every pass. \
+         read_faults: every get of recover() and of compact() returns once an error / a byte flipped at 7 relative positions / the object truncated to 5 relative lengths (stored objects intact). \
          non-trivial = a key occurs in >= 2 compacted segments, or a compacted tombstone has an older value for its key outside the compaction (other segment / checkpoint), \
          or (interleaving) some flush call falls between the compactor's manifest load and its manifest rename; distinct by the whole case",
         &args,
@@ -895,6 +1176,8 @@ fn main() {
     s.assume("recovered state = fold of RecoveredState as apply_recovered_state does it; peer view = vcore::proj::peer_view with the outer stamp's replica id masked (merge keeps self's id there, so it depends on fold order, which compaction legitimately changes); client view = vcore::proj::client_view");
     s.assume("updates under one key have one CRDT type and distinct (time, replica) stamps (otherwise merge itself is order-dependent: C07)");
     s.assume("tombstone age: under the production-like clock every update of the layout is younger than the TTL (stamps are logical counters and carry no wall-clock time), so no tombstone may disappear; under the simulated clock the implementation's reading 'stamp = ms' defines age, and a tombstone older than the TTL may disappear iff no client-visible value comes back");
+    s.assume("KF-C13-02/-03 are matched only when the compacted set equals what the documented selection rule (below-target segments, oldest id first, at most max_segments_per_compaction) picks from the manifest the compactor loaded (minus a segment it could not read under an injected read fault); a tombstone-drop difference with any other compacted set is a violation");
+    s.assume("read faults: a get returns Ok with one byte XOR 0xFF (as SimulatedObjectStore corrupts) or with a prefix of the object, once; the stored object is intact. Other damage patterns (single bit flips inside JSON digits of the manifest, which has no checksum) are not injected");
     s.assume("the step scheduler interleaves at store-call granularity: between two store calls a task runs atomically (there is no other await point in compact()/flush())");
 
     // ---- probes
@@ -915,7 +1198,21 @@ fn main() {
 
     // ---- tier 1
     s.describe_check("layouts", "one compact() on a quiescent store; fold(recover()) before vs after, client and peer view, per-key attribution");
-    s.run_cases("layouts", s.scale(40_000, 5_000_000), || layout(2, 8, 6), check_layout);
+    s.run_cases(
+        "layouts",
+        s.scale(30_000, 4_000_000),
+        || prop_oneof![3 => layout(2, 8, 6).boxed(), 2 => layout_many().boxed()],
+        check_layout,
+    );
+
+    // ---- tier 1b
+    s.describe_check("read_faults", "every get of recover() and of compact() returning, once, an error / one flipped byte (7 positions) / a truncated object (5 lengths), the stored objects intact: recover() must fail or return the healthy state; compact() may skip or fail, the state recovered afterwards with healthy reads must equal the state before");
+    s.run_cases(
+        "read_faults",
+        s.scale(400, 60_000),
+        || prop_oneof![2 => layout(2, 5, 5).boxed(), 1 => layout_many().boxed()],
+        check_read_faults,
+    );
 
     // ---- tier 2
     s.describe_check("interleave", "compact() || flush(): every interleaving of the two tasks' store calls (depth-first over the step scheduler's choice points)");
